@@ -105,6 +105,14 @@ def run_check(pid, tier="quick", update_baseline=False, seed=0, verbose=False):
         again = discharge([v.vc for v in und], idx, jobs=min(4, len(und)), timeout_ms=3 * SOLVE.Z3_TIMEOUT_MS)
         m = {id(v.vc): v for v in again}
         verdicts = [m.get(id(v.vc), v) if v.status == "undecided" and not v.vc.tainted else v for v in verdicts]
+    # ---- lemmas kept as SMT-LIB files (theories z3's python API route does not cover: finite sets with cardinality)
+    from pyvc.solve import Verdict, run_cvc5
+    for rel in getattr(R, "file_lemmas", {}).get(pid, []):
+        text = open(os.path.join(HERE, rel)).read()
+        t0 = time.time()
+        res, tt, err = run_cvc5(text.replace("(set-logic ALL)\n", "", 1))
+        lv = VC("lemma", "lemmas:" + os.path.basename(rel), [], z3.BoolVal(True), kind="lemma", props=[pid])
+        verdicts.append(Verdict(lv, "proved" if res == "unsat" else "undecided", "cvc5-1.0", time.time() - t0, res + " " + err[:100], smt2=text))
     sol_t = time.time() - sol_t
 
     # ---- grouping
